@@ -3,7 +3,7 @@ import Driver.Util
 /-
 Line protocol for C02 (stream energy balance; `Float` instance of the model).
 
-  mix  r=<st> rp=<chars> ins=<inlet>;… Q=<f> cp=<0|1> [eb=<0|1> vle=<0|1> vres=<ok:<T>:<chars>|ex|->] kind=H sol=<sol>;…
+  mix  r=<st> rp=<chars> ins=<inlet>;… Q=<f> cp=<0|1> [eb=<0|1> vle=<0|1> vspec=<H:<H>:<P>|T:<T>:<P>|-> vres=<ok:<T>:<chars>|ex|->] kind=H sol=<sol>;…
        (eb: energy_balance, default 1; vle default 0; vres: what the recorded `stream.vle(...)` call left — the
         temperature and the phases holding material — or that it raised; `-` when it was not called)
   set  r=<st> x=<f> kind=<H|h|S|Sg> sol=…
@@ -14,7 +14,7 @@ Line protocol for C02 (stream energy balance; `Float` instance of the model).
   <ph>    = one phase letter (a Stream) | `*` followed by the phase letters (a MultiStream)
   <chars> = phase letters, or `-` for none
   <inlet> = s:<empty>:<H>:<P>:<T>:<ph>:<chars>:<is the receiver 0|1>  |  h:<heat>  |  n     (`ins=-`: no inlets)
-  <sol>   = ok:<ph>:<T>:<resid>:<slope>  |  ex:<ph>                          (`sol=-`: no solver call)
+  <sol>   = ok:<ph>:<T>:<resid>:<slope>:<target>  |  ex:<ph>:<target>                          (`sol=-`: no solver call)
             one entry per call of solve_T_at_HP/SP or xsolve_T_at_HP/SP the real run made, in order:
             the phase(s) it was called with, the temperature it returned, X(T) − target re-evaluated
             with the real property function, and dX/dT at T (C for H, C/T for S); `ex` = it raised.
@@ -92,23 +92,35 @@ structure Call where
   T : Option Float
   resid : Float
   slope : Float
+  /-- the target the real call was made with -/
+  target : Float
 
 def parseCall? (s : String) : Option Call :=
   match splitOn1 s ':' with
-  | ["ex", ph] => (parsePh? ph).map (fun p => ⟨p, none, 0.0, 0.0⟩)
-  | ["ok", ph, T, r, c] => do
+  | ["ex", ph, x] => do
+    let p ← parsePh? ph
+    let x ← parseFloat? x
+    pure ⟨p, none, 0.0, 0.0, x⟩
+  | ["ok", ph, T, r, c, x] => do
     let ph ← parsePh? ph
     let T ← parseFloat? T
     let r ← parseFloat? r
     let c ← parseFloat? c
-    pure ⟨ph, some T, r, c⟩
+    let x ← parseFloat? x
+    pure ⟨ph, some T, r, c, x⟩
   | _ => none
 
-/-- the recorded calls as the model's solver parameter (a call the real run never made = raised) -/
-def solverOf (calls : List Call) : Solver Float := fun k _ _ =>
-  match calls[k]? with
-  | some c => c.T
-  | none => none
+/-- "the same number up to the rounding of a sum": relative 1e-9 -/
+def nearF (t x : Float) : Bool :=
+  let d := if t - x < 0.0 then x - t else t - x
+  let m := (if t < 0.0 then -t else t) + (if x < 0.0 then -x else x)
+  d ≤ 1e-9 * m
+
+/-- the recorded calls as the model's solver parameter (`recordedSolver` of the model file): call `k` answers only
+when the model asks for the recorded phase state and, up to rounding, the recorded target; a call the real run never
+made = raised -/
+def solverOf (calls : List Call) : Solver Float :=
+  recordedSolver nearF (calls.map (fun c => ⟨c.ph, c.target, c.T⟩))
 
 def absF (x : Float) : Float := if x < 0.0 then -x else x
 
@@ -168,7 +180,22 @@ def stepMix (toks : List String) : Option String := do
         let cs ← parseChars? cs
         pure (some (⟨T, cs⟩ : VleRes Float))
       | _ => none
-  let o := mixFromX (solverOf calls) (fun _ => vres) r rp ins Q cp eb vle
+  -- what the recorded flash call was asked for: vspec=H:<H>:<P> | T:<T>:<P> | -
+  let vspec ← match kv toks "vspec" with
+    | none => some none
+    | some "-" => some none
+    | some v => match splitOn1 v ':' with
+      | ["H", H, P] => do
+        let H ← parseFloat? H
+        let P ← parseFloat? P
+        pure (some (VleSpec.HP H P))
+      | ["T", T, P] => do
+        let T ← parseFloat? T
+        let P ← parseFloat? P
+        pure (some (VleSpec.TP T P))
+      | _ => none
+  let vrun : VleRun Float := recordedVle nearF (vspec.map (fun sp => (sp, vres)))
+  let o := mixFromX (solverOf calls) vrun r rp ins Q cp eb vle
   let vs := match vleSpecX r ins Q eb vle with
     | none => "-"
     | some (.HP H P) => s!"H:{showFloat H}:{showFloat P}"
